@@ -147,3 +147,73 @@ Definition suite_C14 (inp obs : list tok) : verdict :=
       end
   | _, _ => malformed
   end.
+
+(* ------------------------------------------------------------------ suite C14adapt
+   C14's conservation clause for the stream endpoints the CRATE provides (&[u8], Cursor, File, pipes and
+   sockets - the adapters of src/io.rs), judged on the traces of suite C13 (same case and observation
+   format, same implementation model: Suite/C13.v).  For every read of a history, with the stream state
+   observed before and after the call and whatever the call returned (success, short count, failure):
+     the bytes the reader lost (its position moved over them / they left the queue) are exactly the bytes
+     stored at the front of the buffer, in order - none dropped, none stored twice - and the rest of the
+     buffer is untouched;
+   and for every write: what the writer received is a prefix of the buffer, in order.
+   (Message queues are left out: a datagram longer than the buffer is truncated by the kernel.)
+   The scripted-stream theorems of Properties/C14.v cover the generic loops; this checker covers the
+   specialised endpoint implementations, on the real library's observations. *)
+From VM Require Import Impl.Std Spec.C13 Suite.C13.
+
+(* drop / take guarded against positions far beyond the data (a cursor may sit at 2^64-1): no number taken from
+   a trace is ever turned into a unary natural larger than a list that is already there *)
+Definition sdrop {A} (n : N) (l : list A) : list A := if nlen l <=? n then [] else ndrop n l.
+Definition stake {A} (n : N) (l : list A) : list A := if nlen l <=? n then l else ntake n l.
+
+Definition adapt_step_ok (k : skind) (st : sstate) (o : op13) (ob : opobs) : bool :=
+  match o with
+  | ORead b | OReadExact b =>
+      match k with
+      | KMsgQ => true
+      | _ =>
+          let before := match k with KQueue => s_data st | _ => sdrop (s_pos st) (s_data st) end in
+          let consumed := match k with KQueue => nlen (s_data st) - a_pos ob | _ => a_pos ob - s_pos st end in
+          let consumed := N.min consumed (nlen before) in     (* a position past the end consumes nothing more *)
+          (consumed <=? nlen b)
+          && list_eqb (stake consumed (a_buf ob)) (stake consumed before)
+          && list_eqb (sdrop consumed (a_buf ob)) (sdrop consumed b)
+      end
+  | OWrite b | OWriteAll b =>
+      match k with
+      | KMsgQ => true
+      | _ => list_eqb (a_out ob) (stake (nlen (a_out ob)) b)
+      end
+  | OSetPos _ => true
+  end.
+
+Fixpoint adapt_steps_ok (k : skind) (content : list N) (st : sstate) (ops : list op13) (obs : list opobs) {struct ops} : bool :=
+  match ops, obs with
+  | [], [] => true
+  | o :: ops', ob :: obs' =>
+      adapt_step_ok k st o ob
+      && adapt_steps_ok k content (state_of_obs k content (a_data ob) (a_pos ob)) ops' obs'
+  | _, _ => false
+  end.
+
+Definition ok_C14adapt (c : case13) (obs : list opobs) : bool :=
+  adapt_steps_ok (c_kind c) (s_data (c_init c)) (c_init c) (c_ops c) obs.
+
+Definition suite_C14adapt (inp obs : list tok) : verdict :=
+  match inp with
+  | TN md :: TN kd :: TL content :: TN pos :: opl =>
+      match kind_of kd, parse_ops opl, parse_obs obs with
+      | Some k, Some ops, Some o =>
+          if content_ok k content && (pos <? W64) && forallb (op_ok k) ops
+             && pos_sane k (nlen content) pos && forallb (op_sane k) ops then
+            let c := {| Spec.C13.c_mode := if md =? 0 then Debug else Release; c_kind := k;
+                        c_init := {| s_data := content; s_pos := pos; s_out := [] |}; c_ops := ops |} in
+            {| v_model := enc13 (run_C13 c);
+               v_ok := if forallb (obs_sane k) o then ok_C14adapt c o else false;
+               v_wellformed := true |}
+          else malformed
+      | _, _, _ => malformed
+      end
+  | _ => malformed
+  end.
